@@ -39,6 +39,34 @@ def check_groups(g, form: str) -> list[str]:
     return errs
 
 
+def check_derived(g) -> list[str]:
+    """Objects derived from an Obis (filter_group_cde, a copy, one built from as_tupple) after the original was
+    formatted / hashed / compared: each must behave exactly like a fresh object with its own groups."""
+    import copy
+
+    from han import obis
+
+    errs = []
+    o = obis.Obis(tuple(g))
+    _ = (o.to_reduced_str(), str(o), repr(o), hash(o), o == o.to_reduced_str(), o.to_group_cdr_str())
+    want = (None, None, g[2], g[3], g[4], None)
+    for name, d, wg in (("filter_group_cde()", o.filter_group_cde(), want), ("copy.copy()", copy.copy(o), tuple(g)), ("Obis(as_tupple())", obis.Obis(o.as_tupple()), tuple(g))):
+        fresh = obis.Obis(wg)
+        if tuple(d.as_tupple()) != wg:
+            errs.append(f"{name} of {g!r} has groups {d.as_tupple()!r}, expected {wg!r}")
+            continue
+        for meth in ("to_reduced_str", "__str__", "to_group_cdr_str", "__hash__"):
+            a, b = getattr(d, meth)(), getattr(fresh, meth)()
+            if a != b:
+                errs.append(f"{name} of {g!r} (after the original was formatted): {meth}() = {a!r}, a fresh Obis({wg!r}) gives {b!r}")
+        if not (d == fresh) or (d == o) != (wg == tuple(g)):
+            errs.append(f"{name} of {g!r}: equality with a fresh object / the original is wrong")
+    # the original itself must be unaffected by having produced derived objects
+    if o.to_reduced_str() != obis.Obis(tuple(g)).to_reduced_str() or tuple(o.as_tupple()) != tuple(g):
+        errs.append(f"Obis({g!r}) changed after deriving objects from it")
+    return errs
+
+
 def check_roundtrip(g) -> list[str]:
     from han import obis
 
@@ -87,6 +115,8 @@ def replay(case: dict) -> list[str]:
         return check_groups(g, case["form"])
     if k == "roundtrip":
         return check_roundtrip(g)
+    if k == "derived":
+        return check_derived(g)
     if k == "malformed":
         return check_malformed(case["text"])
     return check_pair(tuple(case["g1"]), tuple(case["g2"]))
@@ -124,6 +154,10 @@ def _work_parse(pattern) -> core.Part:
             p.out("roundtrip_ok" if not e else "roundtrip_broken")
             if e:
                 p.viol("roundtrip", f"roundtrip:{g}", e[0], {"kind": "roundtrip", "groups": list(g)}, size=sum(x is not None for x in g))
+        e = check_derived(g)
+        p.add("evaluations")
+        if e:
+            p.viol("derived", f"derived:{g}", e[0], {"kind": "derived", "groups": list(g)}, size=sum(x is not None for x in g))
         if p.full("parse") and p.full("roundtrip"):
             p.capped = True
             break
